@@ -120,7 +120,11 @@ def final_rows(impl, rows):
 
 
 def random_histories(ctx, rng, n_graphs, size_lo, size_hi, labels=True, collide=False):
-    for _ in range(n_graphs):
+    for k_ in range(n_graphs):
+        if k_ % 12 == 5:
+            # descriptive ids, one contained in another, lineages tied by depends_on
+            yield gen_graph.descriptive_history(rng)
+            continue
         n = rng.randint(size_lo, size_hi)
         # a quarter of the histories use short ids over a tiny alphabet: ids that are prefixes /
         # substrings of each other (hand-numbered revisions such as 2, 20, 21)
@@ -428,8 +432,10 @@ def judge(ctx, focus, collected, sds):
             spec_ops.append({"op": "rev.spec.trace", **h, "rows": c["rows"], "steps": impl["steps"][: len(impl["trace"])],
                              "trace": [t["rows"] for t in impl["trace"]]})
             spec_meta.append(("trace", inp, impl, None))
-        elif focus.prop == "C05" and "steps" in impl:
-            if impl["steps"]:
+        elif focus.prop == "C05" and ("steps" in impl or ("err" in impl and "steps" in model)):
+            # (a stamp the implementation refuses although the model - C05.stamp_several: no statement fails - records
+            # it is judged too: the table is then not where the formula says)
+            if impl.get("steps"):
                 ctx.nontrivial(("stamp", json.dumps(c["revs"], sort_keys=True), tuple(sorted(c["rows"])), json.dumps(tgt)))
             for t in c["targets"]:
                 spec_ops.append({"op": "rev.spec.targets", **h, "ident": t})
@@ -502,6 +508,19 @@ def judge(ctx, focus, collected, sds):
             named = [t for g in group for t in g.get("targets", [])]
             if len(named) != len(set(named)):
                 ctx.hist("skipped", "the same destination named twice")
+            elif all("targets" in g for g in group) and "err" in impl:
+                dests = []
+                for g in group:
+                    for t in g["targets"]:
+                        if t not in dests:
+                            dests.append(t)
+                second.append({"op": "rev.spec.antichain", **h, "rows": inp["rows"]})
+                second_meta.append(("stamp-pre", inp, impl, dests))
+                second.append({"op": "rev.spec.antichain", **h, "rows": dests})
+                second_meta.append(("stamp-pre2", inp, impl, dests))
+                # the table stays as it was: is that where the formula says it should be?
+                second.append({"op": "rev.spec.stamp", **h, "rows": inp["rows"], "dests": dests, "rows2": inp["rows"]})
+                second_meta.append(("stamp-refused", inp, impl, dests))
             elif all("targets" in g for g in group) and "stepErr" not in impl:
                 dests = []
                 for g in group:
@@ -537,6 +556,10 @@ def judge(ctx, focus, collected, sds):
                              tags=["multi" if len(extra) > 1 else "single"])
                 elif not pre_ok:
                     ctx.hist("skipped", "start rows or destinations are not an antichain")
+            elif kind == "stamp-refused":
+                if pre_ok and a.get("holds") is not True:
+                    ctx.fail(inp, "stamp-refused: stamp raised %s and left the table as it was, which is not (rows minus lineage of the destinations) "
+                                  "plus the destinations %s" % (impl["err"], extra), impl=impl, tags=["refused"])
             elif kind == "stamp-err":
                 if a.get("holds") is True:
                     ctx.fail(inp, "bookkeeping-failed: %s while recording a stamp step" % impl["stepErr"], impl=impl, tags=["stepErr"])
